@@ -110,6 +110,10 @@ def validate_witness(rp, w, fcost, strict_steps=True):
                   overrides=w.get("overrides", ()), trace=True)
     if not resp.get("ok"):
         return False, f"real run failed: {resp.get('kind')}: {resp.get('error')}", resp
+    if w.get("loose"):
+        # the path contains a hint whose honest relation is looser than the runner's choice:
+        # only "the real run completes" is compared
+        return True, "loose", resp
     kind, vals = w["view"]
     real = resp["value"]
     real_kind = "Success" if "Success" in real else "Panic"
@@ -217,6 +221,8 @@ def generic(args, prop, worker, cfgs, confirm, level="model_checking", extra_tas
                     print(f"KNOWN-FINDING: property={prop} {r['name']} {c.get('why', '')}")
                 else:
                     violations.append((r["name"], save_replay(prop, r["name"], payload)))
+            elif c.get("loose"):
+                r["undecided"].append(f"{c.get('query')}:loose-hint-model-not-reproduced")
             else:
                 faults.append(f"{r['name']}[{tag}]: solver model did not reproduce in the real "
                               f"runner: {c.get('query')}: {payload.get('note', '')}")
